@@ -128,6 +128,60 @@ fn run_ws(ws: &mut Ws, args: &[&str]) -> Option<String> {
             ws.host.as_mut()?.apply_change(change);
             Some("ok".into())
         }
+        ["hist-reset"] => {
+            *ws = Ws::default();
+            ws.host = Some(AnalysisHost::new());
+            Some("ok".into())
+        }
+        ["hist-change", g, r, f] => {
+            // one `Change` applied to the long-lived host: g = none | name:toml:local:dep+dep;…
+            // r = none | path|fid=path,…;…      f = - | fid:hex,…
+            let mut change = Change::default();
+            if *g != "none" {
+                let mut graph = PackageGraph::default();
+                let mut ids: Vec<PackageId> = Vec::new();
+                let specs: Vec<Vec<&str>> = if g.is_empty() { vec![] } else { g.split(';').map(|p| p.split(':').collect()).collect() };
+                for p in &specs {
+                    ids.push(graph.add_package(p[0].into(), FileId(p[1].parse().ok()?), p[2] == "1"));
+                }
+                for (i, p) in specs.iter().enumerate() {
+                    if p.len() > 3 && !p[3].is_empty() {
+                        for d in p[3].split('+') {
+                            if let Some(j) = specs.iter().position(|q| q[0] == d) {
+                                graph.add_dep(ids[i], Dependency { package: ids[j] });
+                            }
+                        }
+                    }
+                }
+                change.set_package_graph(graph);
+            }
+            if *r != "none" {
+                let mut roots = Vec::new();
+                if !r.is_empty() {
+                    for spec in r.split(';') {
+                        let (path, files) = spec.split_once('|')?;
+                        let mut set = FileSet::default();
+                        if !files.is_empty() {
+                            for kv in files.split(',') {
+                                let (fid, fp) = kv.split_once('=')?;
+                                set.insert(FileId(fid.parse().ok()?), VfsPath::new(fp));
+                            }
+                        }
+                        roots.push(SourceRoot::new(set, PathBuf::from(path)));
+                    }
+                }
+                change.set_roots(roots);
+            }
+            if *f != "-" {
+                for kv in f.split(',') {
+                    let (fid, h) = kv.split_once(':')?;
+                    change.change_file(FileId(fid.parse().ok()?), unhex(h)?.as_str().into());
+                }
+            }
+            ws.host.as_mut()?.apply_change(change);
+            Some("ok".into())
+        }
+        ["inputs", n] => Some(ws.host.as_ref()?.verif_inputs(n.parse().ok()?)),
         ["rebuild"] => {
             // fresh analysis of the current workspace
             build(ws);
